@@ -148,6 +148,12 @@ class BaseHandler:
             and (self.selector.find(".\\") == -1)
             and (self.selector.find("\\\\") == -1)
             and (self.selector.find("\0") == -1)
+            # A trailing "." component names the directory itself a second
+            # time ("/dir/." is "/dir"): its children would all be refused
+            # (".../dir/./x"), and the empty listing would be cached as the
+            # listing of the real directory.
+            and not self.selector.endswith("/.")
+            and self.selector != "."
         )
 
     def canhandlerequest(self) -> bool:
